@@ -173,7 +173,9 @@ EXEC_EXPRS = ['(exec "true")', '(exec "false")', '(exec "no-such-program-xyz")',
               # children that fill one pipe while the other is still open, in both orders, and both at once
               '(exec "sh" "-c" "head -c 200000 /dev/zero >&2; echo done")', '(exec "sh" "-c" "head -c 200000 /dev/zero; echo done >&2")',
               '(exec "sh" "-c" "head -c 150000 /dev/zero >&2 & head -c 150000 /dev/zero; wait")', '(exec "sh" "-c" "exec 1>&-; head -c 100000 /dev/zero >&2")',
-              '(exec "echo" .s .s 5 null [1] {})', '(exec "")', '(exec .s)']
+              '(exec "echo" .s .s 5 null [1] {})', '(exec "")', '(exec .s)',
+              # fire and forget: the run does not wait for what it triggered
+              '(trigger "sleep" "70")', '(trigger "no-such-program-xyz")', '(trigger "true")', '(trigger 5)', '(trigger "sh" "-c" "sleep 70; echo late")']
 
 
 def gen_exec_unit(rng):
@@ -326,7 +328,7 @@ def run(env):
     code = core.finish(PROP, env.tier, env.seed, LEVEL, stats, env.t0, RULE, min_conclusive=20000 if quick else 10 ** 6,
                        exhaustive=complete, extra=extra, extra_distinct=enumerated,
                        assumptions=["a watchdog firing or a dead driver is believed only when the single case reproduces it alone in a fresh process (60 s)",
-                                    "bounds of the property: nesting <= 64, range/collection sizes <= 10^4, decimal exponents <= 10^3; exec only with a fixed list of harmless commands; trigger/now never generated"])
+                                    "bounds of the property: nesting <= 64, range/collection sizes <= 10^4, decimal exponents <= 10^3; exec/trigger only with a fixed list of harmless commands; now never generated"])
     return code
 
 
